@@ -4,3 +4,4 @@ import Reduino.Driver.Tool
 import Reduino.Driver.Fw
 import Reduino.Driver.Lcd
 import Reduino.Driver.Heap
+import Reduino.Driver.Lang
